@@ -63,7 +63,8 @@ pub enum Op {
     Rcu { c: usize, h: usize, #[serde(default)] panic_at: u32, #[serde(default)] pd: bool, #[serde(default)] nested: Vec<Op>, #[serde(default)] nested_until: u32 },
     IntoInnerC { c: usize, h: usize },
     DropC { c: usize },
-    CacheNew { x: usize, c: usize },
+    /// m: a mapped cache (Cache::map with a projection) instead of a plain one
+    CacheNew { x: usize, c: usize, #[serde(default)] m: bool },
     CacheLoad { x: usize },
     CacheDrop { x: usize },
     CacheClone { x: usize, y: usize },
@@ -159,12 +160,40 @@ fn proj_obj_inner(o: &crate::vptr::Obj) -> &crate::vptr::Inner {
     o.inner_ref()
 }
 
+fn whole(v: &T) -> &T {
+    v
+}
+
+/// A plain cache or a mapped one (the projection is the whole value, so that its identity can be observed).
+pub enum XCache<S: Strategy<T>> {
+    Plain(Cache<Cont<S>, T>),
+    Mapped(arc_swap::cache::MapCache<Cont<S>, T, fn(&T) -> &T>),
+}
+
+impl<S: Strategy<T>> Clone for XCache<S> {
+    fn clone(&self) -> Self {
+        match self {
+            XCache::Plain(c) => XCache::Plain(c.clone()),
+            XCache::Mapped(m) => XCache::Mapped(m.clone()),
+        }
+    }
+}
+
+impl<S: Strategy<T>> XCache<S> {
+    fn load(&mut self) -> &T {
+        match self {
+            XCache::Plain(c) => c.load(),
+            XCache::Mapped(m) => arc_swap::cache::Access::load(m),
+        }
+    }
+}
+
 pub struct World<S: Strategy<T>> {
     pub projs: Vec<Option<ProjBox>>,
     pub conts: Vec<Option<Cont<S>>>,
     pub guards: Vec<Option<Guard<T, S>>>,
     pub handles: Vec<Option<T>>,
-    pub caches: Vec<Option<Cache<Cont<S>, T>>>,
+    pub caches: Vec<Option<XCache<S>>>,
 }
 
 impl<S: Strategy<T>> World<S> {
@@ -189,7 +218,7 @@ impl<S: Strategy<T>> RegKind for Guard<T, S> {
 impl RegKind for T {
     const K: &'static str = "h";
 }
-impl<S: Strategy<T>> RegKind for Cache<Cont<S>, T> {
+impl<S: Strategy<T>> RegKind for XCache<S> {
     const K: &'static str = "x";
 }
 impl<S: Strategy<T>> RegKind for Cont<S> {
@@ -702,10 +731,10 @@ where
                 }
             }
         }
-        Op::CacheNew { x, c } => {
+        Op::CacheNew { x, c, m } => {
             let Some(cont) = cont(w, *c) else { return };
             inv("cache_new", *c as i64, 0, 0, *x as i64);
-            let mut cache = Cache::new(cont);
+            let mut cache = if *m { XCache::Mapped(Cache::new(cont).map(whole as fn(&T) -> &T)) } else { XCache::Plain(Cache::new(cont)) };
             // the value it retains is observed by an immediate load (which may already see a newer one)
             let id = val_id(cache.load());
             let old = put(&mut wl(w).caches, *x, cache);
